@@ -21,6 +21,12 @@
 (* The document may start empty or PRELOADED (one stroke over the whole    *)
 (* line, counter = its order: what Numbers and the library itself leave    *)
 (* in a file), and may be Reopened from the file saved after any stroke.   *)
+(* Touch(k): an edit that is not a stroke but rebuilds the border objects  *)
+(* of open cells - Table.write replaces the cells along the line           *)
+(* ("touch-write"), Table.merge_cells elsewhere in the table rebuilds the  *)
+(* border object of EVERY cell ("touch-merge").  Neither changes a border. *)
+(* Bug "TouchForgetsBorders": the rebuilt objects start empty (pinned      *)
+(* tree: CellBorder() in Cell._set_merge, and in Table.write).             *)
 (***************************************************************************)
 EXTENDS Integers, Sequences, FiniteSets, TLC
 CONSTANTS N, Values, MaxStrokes, Bug
@@ -72,12 +78,18 @@ Init == Empty \/ \E v0 \in Values : Preloaded(v0)
 \* the document is loaded again from the file written after the last stroke: the open cells hold what the file shows, with the orders stored there
 OrderAt(rs, i) == LET cov == {k \in 1..Len(rs) : Covers(rs[k], i)} IN
                   IF cov = {} THEN 0 ELSE rs[CHOOSE k \in cov : \A j \in cov : rs[k].order >= rs[j].order].order
-Reopen == /\ Len(hist) < MaxStrokes /\ hist # <<>> /\ hist[Len(hist)].v # "reopen"
+Reopen == /\ Len(hist) < MaxStrokes /\ hist # <<>> /\ hist[Len(hist)].v \notin {"reopen", "touch-write", "touch-merge"}
           /\ openv' = [i \in 1..N |-> [value |-> FileView(runs, i), order |-> OrderAt(runs, i)]]
           /\ UNCHANGED <<edge, runs, maxOrder>>
           /\ hist' = Append(hist, [o |-> 0, len |-> 0, v |-> "reopen"])
+Touches == {"touch-write", "touch-merge"}
+Touch(k) == /\ Len(hist) < MaxStrokes /\ hist # <<>> /\ hist[Len(hist)].v \notin Touches
+            /\ openv' = IF Bug = "TouchForgetsBorders" THEN [i \in 1..N |-> [value |-> NoBorder, order |-> 0]] ELSE openv
+            /\ UNCHANGED <<edge, runs, maxOrder>>
+            /\ hist' = Append(hist, [o |-> 0, len |-> 0, v |-> k])
 Next == \/ \E o \in 1..N, len \in 1..N, v \in Values : Stroke(o, len, v)
         \/ Reopen
+        \/ \E k \in Touches : Touch(k)
 Spec == Init /\ [][Next]_vars
 NoHist == <<edge, runs, openv, maxOrder>>
 FileAgrees == \A i \in 1..N : FileView(runs, i) = edge[i]               \* the saved file shows the last writer
